@@ -26,7 +26,7 @@ def _pair_case(r, base_net, other_net, n):
     init = H.rec_from_net(base_net, bouts, labels=bl)
     other = H.rec_from_net(other_net, oouts, labels=ol)
     right = r.random() < 0.5
-    via = r.choice(['connect_circuit'] * 5 + ['connect_left', 'connect_right', 'connect_inputs', 'extend_circuit', 'add_circuit'])
+    via = r.choice(['connect_circuit'] * 5 + ['connect_left', 'connect_right', 'connect_inputs', 'extend_circuit', 'extend_circuit', 'add_circuit'])
     name = r.choice(['', 'B'])
     pfx = r.random() < 0.6 or True  # without a prefix labels never clash here (disjoint alphabets); keep both
     pfx = r.random() < 0.6
@@ -53,9 +53,22 @@ def _pair_case(r, base_net, other_net, n):
     elif via == 'extend_circuit':
         tc = bl[:bi] if right else init['o']
         oc = other['o'] if right else ol[:oi]
+        mode = r.choice(['defaults', 'defaults', 'empty', 'explicit'])
+        if mode == 'empty':
+            # explicitly empty connector lists: a side-by-side composition, not the defaults
+            tc, oc = [], []
+            extra = {'tc_arg': [], 'oc_arg': []}
+        elif mode == 'explicit':
+            m = r.randint(0, min(len(tc), len(oc)))
+            tc, oc = list(tc[:m]), list(oc[:m])
+            extra = {'tc_arg': list(tc), 'oc_arg': list(oc)}
+        else:
+            extra = {}
     else:
         right, tc, oc = False, [], []
     act = {'a': 'connect', 'other': other, 'tc': list(tc), 'oc': list(oc), 'right': right, 'name': name, 'pfx': pfx, 'via': via}
+    if via == 'extend_circuit':
+        act.update(extra)
     acts = [act]
     if r.random() < 0.3:
         acts.append({'a': 'copy'})
